@@ -88,8 +88,13 @@ def main(argv):
                 broken.append("audit: " + p)
 
     # 4. correspond + oracle ----------------------------------------------------------------
+    limit = int(os.environ.get("VERIF_RUN_TIMEOUT", "3600" if tier == "thorough" else "900"))
     try:
-        out = mod.run(ctx)
+        out = common.with_timeout(mod.run, limit, ctx)
+    except common.Hang:
+        # the code under test blocks the harness (e.g. a run that never returns): not an infrastructure error
+        out = Outcome()
+        broken.append("harness did not finish within %ds: some execution of the code under test does not return" % limit)
     except Exception:
         # harness crash on the real code = the code no longer supports the modelled interface
         tb = traceback.format_exc()
@@ -175,14 +180,20 @@ def main(argv):
     return 0
 
 
+def _exit(code):
+    sys.stdout.flush()
+    sys.stderr.flush()
+    os._exit(code)  # abandoned (hung) daemon threads and children must not keep the check alive
+
+
 if __name__ == "__main__":
     import faulthandler
     import signal
     faulthandler.register(signal.SIGUSR1, all_threads=True)  # kill -USR1 <pid> prints every thread's stack
     try:
-        sys.exit(main(sys.argv[1:]))
-    except SystemExit:
-        raise
+        _exit(main(sys.argv[1:]))
+    except SystemExit as e:
+        _exit(e.code if isinstance(e.code, int) else 2)
     except Exception:
         traceback.print_exc()
-        sys.exit(2)
+        _exit(2)
